@@ -255,3 +255,311 @@ Proof.
     + apply (find_none _ _ E). apply in_seq. lia.
     + apply occ_none_past; [unfold len in Hge; lia|exact Hs].
 Qed.
+
+(* ---- the counting reference of Text_Anzahl_Text_Nicht_Überlappend, stepped to the first occurrence ---- *)
+Lemma occ_tl t s j : occ_b (tl t) s j = occ_b t s (S j).
+Proof. unfold occ_b. destruct t as [|c r]; cbn [tl skipn]; [now rewrite skipn_nil|reflexivity]. Qed.
+Lemma occ_length t s k : s <> [] -> occ_b t s k = true -> (k + length s <= length t)%nat.
+Proof.
+  intros Hs H. assert (0 < length s)%nat by (destruct s; [congruence|cbn; lia]). unfold occ_b in H. apply text_eqb_spec in H. apply (f_equal (@length Z)) in H.
+  rewrite firstn_length, skipn_length in H. lia.
+Qed.
+Lemma nonoverlap_steps s : s <> [] -> forall k F t, occ_b t s k = true -> (forall j, (j < k)%nat -> occ_b t s j = false) -> (k < F)%nat ->
+  nonoverlap_ref F s t = 1 + nonoverlap_ref (F - k - 1) s (skipn (k + length s) t).
+Proof.
+  intros Hs. induction k as [|k IH]; intros F t Hocc Hno HF; (destruct F as [|f]; [lia|]); cbn [nonoverlap_ref];
+    pose proof (occ_length t s _ Hs Hocc) as Hl.
+  - replace (length t <? length s)%nat with false by (symmetry; apply Nat.ltb_ge; lia).
+    change (text_eqb (firstn (length s) t) s) with (occ_b t s 0). rewrite Hocc.
+    replace (S f - 0 - 1)%nat with f by lia. reflexivity.
+  - replace (length t <? length s)%nat with false by (symmetry; apply Nat.ltb_ge; lia).
+    change (text_eqb (firstn (length s) t) s) with (occ_b t s 0). rewrite (Hno 0%nat) by lia.
+    rewrite (IH f (tl t)).
+    + replace (S f - S k - 1)%nat with (f - k - 1)%nat by lia. do 2 f_equal.
+      destruct t as [|c r]; [cbn in Hl; destruct s; [congruence|cbn in Hl; lia]|reflexivity].
+    + now rewrite occ_tl.
+    + intros j Hj. rewrite occ_tl. apply Hno. lia.
+    + lia.
+Qed.
+Lemma nonoverlap_none s : forall F t, (forall j, occ_b t s j = false) -> nonoverlap_ref F s t = 0.
+Proof.
+  induction F as [|f IH]; intros t Hno; cbn [nonoverlap_ref]; [reflexivity|].
+  destruct (length t <? length s)%nat; [reflexivity|].
+  change (text_eqb (firstn (length s) t) s) with (occ_b t s 0). rewrite Hno.
+  apply IH. intros j. rewrite occ_tl. apply Hno.
+Qed.
+Lemma nonoverlap_nonneg s : forall F t, 0 <= nonoverlap_ref F s t.
+Proof.
+  induction F as [|f IH]; intros t; cbn [nonoverlap_ref]; [lia|].
+  destruct (length t <? length s)%nat; [lia|]. destruct (text_eqb (firstn (length s) t) s); [pose proof (IH (skipn (length s) t))|apply IH]; lia.
+Qed.
+
+(* ---- Spalte_Text: cut at the first occurrence of the separator text, continue behind it ---- *)
+Fixpoint split_iter (fuel : nat) (s t : text) : list text :=
+  match fuel with
+  | O => [t]
+  | S f =>
+      let i := ref_index t s in
+      if i =? -1 then [t]
+      else firstn (Z.to_nat (i - 1)) t :: split_iter f s (skipn (Z.to_nat (i - 1) + length s) t)
+  end.
+
+Lemma spalte_text_loop_inv s n fuel : 1 < len s -> forall t endl i G C,
+  i = len endl + 1 -> (length t < C)%nat -> nonoverlap_ref C s t <= n - i -> (length t < G)%nat -> (length t < fuel)%nat ->
+  exists t' endl' i',
+    spalte_loop fuel (fun t => Text_Index_Von_Text t s) (fun endIndex t => endIndex + len s >? len t) (len s) t endl i n = Ok (t', endl', i') /\
+    endl' ++ [t'] = endl ++ split_iter G s t /\ i' = len (endl' ++ [t']).
+Proof.
+  intros Hls. assert (Hs : s <> []) by (intros ->; cbn in Hls; lia).
+  induction fuel as [|f IH]; intros t endl i G C Hi HC Hcnt HG Hf; [lia|].
+  cbn [spalte_loop]. pose proof (nonoverlap_nonneg s C t) as Hn0.
+  replace (i <=? n) with true by (symmetry; apply Z.leb_le; lia).
+  rewrite text_index_von_text_spec by exact Hs. cbn [bind].
+  destruct G as [|g]; [lia|]. cbn [split_iter]. cbv zeta.
+  destruct (ref_index_cases t s Hs) as [[Hr Hno]|(k & Hr & Hkl & Hocc & Hbefore)]; rewrite Hr.
+  - cbn. exists t, endl, i. split; [reflexivity|]. split; [reflexivity|]. rewrite len_app, len_cons, len_nil. lia.
+  - replace (Z.of_nat k + 1 <? 0) with false by (symmetry; apply Z.ltb_ge; lia).
+    replace (Z.of_nat k + 1 =? -1) with false by (symmetry; apply Z.eqb_neq; lia).
+    replace (Z.to_nat (Z.of_nat k + 1 - 1)) with k by lia.
+    assert (HL : len t = Z.of_nat (length t)) by reflexivity. assert (HLs : len s = Z.of_nat (length s)) by reflexivity.
+    assert (Hpiece : (if Z.of_nat k + 1 =? 1 then Ok [] else slice_to t (Z.of_nat k + 1 - 1)) = Ok (firstn k t)).
+    { destruct (Z.of_nat k + 1 =? 1) eqn:E1.
+      - apply Z.eqb_eq in E1. replace k with 0%nat by lia. reflexivity.
+      - apply Z.eqb_neq in E1. rewrite slice_to_in by lia. f_equal. f_equal. lia. }
+    rewrite Hpiece. cbn [bind].
+    assert (Hrest : (if Z.of_nat k + 1 + len s >? len t then Ok [] else slice_from t (Z.of_nat k + 1 + len s)) = Ok (skipn (k + length s) t)).
+    { destruct (Z.of_nat k + 1 + len s >? len t) eqn:E2; rewrite Z.gtb_ltb in E2.
+      - apply Z.ltb_lt in E2. rewrite skipn_all2 by lia. reflexivity.
+      - apply Z.ltb_ge in E2. rewrite slice_from_in by lia. f_equal. f_equal. lia. }
+    rewrite Hrest. cbn [bind].
+    pose proof (nonoverlap_steps s Hs k C t Hocc Hbefore ltac:(lia)) as Hstep.
+    assert (Hlu : length (skipn (k + length s) t) = (length t - (k + length s))%nat) by apply skipn_length.
+    assert (Hls1 : (1 <= length s)%nat) by (destruct s; [congruence|cbn; lia]).
+    destruct (IH (skipn (k + length s) t) (endl ++ [firstn k t]) (i + 1) g (C - k - 1)%nat) as (t' & endl' & i' & E & Hsplit & Hi').
+    + rewrite len_app, len_cons, len_nil. lia.
+    + lia.
+    + lia.
+    + lia.
+    + lia.
+    + exists t', endl', i'. split; [exact E|]. split; [|exact Hi']. rewrite Hsplit, <- app_assoc. reflexivity.
+Qed.
+
+Theorem spalte_text_spec t s : 1 < len s -> Spalte_Text t s = Ok (split_iter (length t + 1) s t).
+Proof.
+  intros Hls. assert (Hs : s <> []) by (intros ->; cbn in Hls; lia).
+  unfold Spalte_Text. cbv zeta.
+  replace (len s =? 0) with false by (symmetry; apply Z.eqb_neq; lia).
+  replace (len s =? 1) with false by (symmetry; apply Z.eqb_neq; lia).
+  rewrite nicht_ueberlappend_spec by exact Hs. cbn [bind].
+  destruct (spalte_text_loop_inv s (nonoverlap_ref (length t + 1) s t + 1) (length t + 2) Hls t [] 1 (length t + 1)%nat (length t + 1)%nat)
+    as (t' & endl' & i' & E & Hsplit & Hi'); try reflexivity; try lia.
+  rewrite E. cbn [bind]. rewrite Hi'. rewrite slice_to_in.
+  - f_equal. rewrite to_nat_len, firstn_all. exact Hsplit.
+  - rewrite len_app, len_cons, len_nil. pose proof (len_nonneg endl'). lia.
+Qed.
+
+(* ---- Finde_Subtext: the first occurrence, then the first occurrence behind it, ... (1-based start positions) ---- *)
+Fixpoint finde_iter (fuel : nat) (s t : text) (pos : Z) : list Z :=
+  match fuel with
+  | O => []
+  | S f =>
+      let i := ref_index t s in
+      if i =? -1 then []
+      else (i + (pos - 1)) :: finde_iter f s (skipn (Z.to_nat (i - 1) + length s) t) (i + (pos - 1) + len s)
+  end.
+
+Lemma finde_loop_inv s t fuel : s <> [] -> forall start l, 1 <= start -> (Z.to_nat (len t - start + 1) < fuel)%nat ->
+  finde_loop fuel t s (len t) (len s) start l = Ok (l ++ finde_iter fuel s (skipn (Z.to_nat (start - 1)) t) start).
+Proof.
+  intros Hs. assert (Hls : 1 <= len s) by (destruct s; [congruence|rewrite len_cons; pose proof (len_nonneg s); lia]).
+  induction fuel as [|f IH]; intros start l Hst Hf; [lia|].
+  cbn [finde_loop finde_iter]. cbv zeta.
+  set (u := skipn (Z.to_nat (start - 1)) t).
+  assert (Hlu : length u = (length t - Z.to_nat (start - 1))%nat) by apply skipn_length.
+  destruct (start <=? len t - len s + 1) eqn:E.
+  - apply Z.leb_le in E. rewrite slice_from_in by lia. cbn [bind]. fold u.
+    rewrite text_index_von_text_spec by exact Hs. cbn [bind].
+    destruct (ref_index_cases u s Hs) as [[Hr Hno]|(k & Hr & Hkl & Hocc & Hbefore)]; rewrite Hr.
+    + cbn. now rewrite app_nil_r.
+    + replace (Z.of_nat k + 1 =? -1) with false by (symmetry; apply Z.eqb_neq; lia).
+      replace (Z.to_nat (Z.of_nat k + 1 - 1)) with k by lia.
+      rewrite IH by (unfold len in *; lia). rewrite <- app_assoc. cbn [app].
+      replace (skipn (k + length s) u) with (skipn (Z.to_nat (Z.of_nat k + 1 + (start - 1) + len s - 1)) t); [reflexivity|].
+      unfold u. rewrite skipn_add. f_equal. unfold len. lia.
+  - apply Z.leb_gt in E. rewrite app_nil_r || idtac.
+    replace (ref_index u s) with (-1); [cbn; now rewrite app_nil_r|].
+    symmetry. apply ref_index_none. intros j Hj. unfold len in *. lia.
+Qed.
+
+Theorem finde_subtext_spec t s : s <> [] -> Finde_Subtext t s = Ok (finde_iter (length t + 1) s t 1).
+Proof.
+  intros Hs. assert (Hls : 1 <= len s) by (destruct s; [congruence|rewrite len_cons; pose proof (len_nonneg s); lia]).
+  pose proof (len_nonneg t) as HLt.
+  unfold Finde_Subtext. cbv zeta.
+  replace (len s =? 0) with false by (symmetry; apply Z.eqb_neq; lia). cbn [orb].
+  assert (Hnone : ref_index t s = -1 -> finde_iter (length t + 1) s t 1 = []).
+  { intros Hr. replace (length t + 1)%nat with (S (length t)) by lia. cbn [finde_iter]. cbv zeta. now rewrite Hr. }
+  destruct (len t =? 0) eqn:E0; cbn [orb].
+  { apply Z.eqb_eq in E0. f_equal. symmetry. apply Hnone. apply ref_index_none. intros j Hj. lia. }
+  destruct (len s >? len t) eqn:E1; rewrite Z.gtb_ltb in E1.
+  { apply Z.ltb_lt in E1. f_equal. symmetry. apply Hnone. apply ref_index_none. intros j Hj. lia. }
+  apply Z.ltb_ge in E1. apply Z.eqb_neq in E0.
+  destruct (len t =? len s) eqn:E2.
+  - apply Z.eqb_eq in E2.
+    assert (Ho : occ_b t s 0 = text_eqb t s).
+    { unfold occ_b. cbn [skipn]. replace (length s) with (length t) by (unfold len in E2; lia). now rewrite firstn_all. }
+    destruct (text_eqb t s) eqn:Eq; f_equal; symmetry.
+    + replace (length t + 1)%nat with (S (S (length t - 1))) by (unfold len in *; lia). cbn [finde_iter]. cbv zeta.
+      rewrite (ref_index_some t s 0) by (try lia; try (now rewrite Ho); intros j Hj; lia).
+      cbn [Z.of_nat Z.add Z.eqb Z.sub Z.to_nat Nat.add]. f_equal.
+      rewrite (skipn_all2 t) by (unfold len in E2; lia).
+      replace (ref_index [] s) with (-1); [reflexivity|]. symmetry. apply ref_index_none. intros j Hj. cbn in Hj. lia.
+    + apply Hnone. apply ref_index_none. intros j Hj. assert (j = 0%nat) by lia. subst j. now rewrite Ho.
+  - pose proof (finde_loop_inv s t (length t + 1) Hs 1 [] ltac:(lia) ltac:(unfold len; lia)) as H.
+    cbn [app Z.sub Z.to_nat skipn] in H. exact H.
+Qed.
+
+(* ---- Spalten_Spaltmenge_Text: the maximal runs of letters outside the set ---- *)
+Section Spaltmenge.
+  Variable m : list Z.
+  Definition inm (c : Z) : bool := existsb (fun x => x =? c) m.
+  Hypothesis Hm0 : inm 0 = false.          (* a Text never contains the NUL letter the iterator reports at its end *)
+
+  Lemma menge_enthaelt_inm c : menge_enthaelt m c = inm c.
+  Proof. unfold menge_enthaelt. now rewrite enthaelt_spec. Qed.
+
+  Lemma it_at (pre : text) c suf : it_zuende (pre ++ c :: suf) (len pre + 1) = false /\
+    it_buchstabe (pre ++ c :: suf) (len pre + 1) = c /\ it_naechster (pre ++ c :: suf) (len pre + 1) = len pre + 1 + 1.
+  Proof.
+    assert (Hz : it_zuende (pre ++ c :: suf) (len pre + 1) = false).
+    { unfold it_zuende. rewrite Z.gtb_ltb. apply Z.ltb_ge. rewrite len_app, len_cons. pose proof (len_nonneg suf). lia. }
+    unfold it_buchstabe, it_naechster. rewrite Hz, rd_mid. auto.
+  Qed.
+  Lemma it_end (t : text) : it_zuende t (len t + 1) = true /\ it_buchstabe t (len t + 1) = 0 /\ it_naechster t (len t + 1) = len t + 1.
+  Proof.
+    assert (Hz : it_zuende t (len t + 1) = true) by (unfold it_zuende; rewrite Z.gtb_ltb; apply Z.ltb_lt; lia).
+    unfold it_buchstabe, it_naechster. rewrite Hz. auto.
+  Qed.
+
+  Definition stops (p : Z -> bool) (R : text) : Prop := R = [] \/ exists c R', R = c :: R' /\ p c = false.
+  Lemma span (p : Z -> bool) (l : text) : exists A R, l = A ++ R /\ Forall (fun c => p c = true) A /\ stops p R.
+  Proof.
+    induction l as [|c l IH]; [exists [], []; repeat split; [constructor|left; reflexivity]|].
+    destruct (p c) eqn:E.
+    - destruct IH as (A & R & -> & HA & HR). exists (c :: A), R. repeat split; [constructor; assumption|exact HR].
+    - exists [], (c :: l). repeat split; [constructor|right; exists c, l; auto].
+  Qed.
+
+  Lemma skip_in_inv A : forall pre R fuel, Forall (fun c => inm c = true) A -> stops inm R -> (length A < fuel)%nat ->
+    skip_in fuel (pre ++ A ++ R) m (len pre + 1) = Ok (len pre + len A + 1).
+  Proof.
+    induction A as [|a A IH]; intros pre R fuel HA HR Hf; (destruct fuel as [|f]; [lia|]); cbn [skip_in app].
+    - rewrite menge_enthaelt_inm. rewrite len_nil. destruct HR as [->|(c & R' & -> & Hc)].
+      + rewrite app_nil_r. destruct (it_end pre) as (_ & -> & _). rewrite Hm0. f_equal. lia.
+      + destruct (it_at pre c R') as (_ & -> & _). rewrite Hc. f_equal. lia.
+    - inversion HA as [|a' A' Ha HA']; subst. rewrite menge_enthaelt_inm.
+      destruct (it_at pre a (A ++ R)) as (_ & -> & ->). rewrite Ha.
+      replace (pre ++ a :: A ++ R) with ((pre ++ [a]) ++ A ++ R) by (rewrite <- app_assoc; reflexivity).
+      replace (len pre + 1 + 1) with (len (pre ++ [a]) + 1) by (rewrite len_app, len_cons, len_nil; lia).
+      rewrite IH by (try assumption; cbn [length] in Hf; lia). f_equal. rewrite len_app, !len_cons, len_nil. lia.
+  Qed.
+  Lemma skip_out_inv B : forall pre R fuel, Forall (fun c => negb (inm c) = true) B -> stops (fun c => negb (inm c)) R -> (length B < fuel)%nat ->
+    skip_out fuel (pre ++ B ++ R) m (len pre + 1) = Ok (len pre + len B + 1).
+  Proof.
+    induction B as [|b B IH]; intros pre R fuel HB HR Hf; (destruct fuel as [|f]; [lia|]); cbn [skip_out app].
+    - rewrite len_nil. destruct HR as [->|(c & R' & -> & Hc)].
+      + rewrite app_nil_r. destruct (it_end pre) as (-> & _ & _). cbn [negb andb]. f_equal. lia.
+      + destruct (it_at pre c R') as (-> & -> & _). rewrite menge_enthaelt_inm. rewrite Hc. cbn [negb andb]. f_equal. lia.
+    - inversion HB as [|b' B' Hb HB']; subst.
+      destruct (it_at pre b (B ++ R)) as (-> & -> & ->). rewrite menge_enthaelt_inm, Hb. cbn [negb andb].
+      replace (pre ++ b :: B ++ R) with ((pre ++ [b]) ++ B ++ R) by (rewrite <- app_assoc; reflexivity).
+      replace (len pre + 1 + 1) with (len (pre ++ [b]) + 1) by (rewrite len_app, len_cons, len_nil; lia).
+      rewrite IH by (try assumption; cbn [length] in Hf; lia). f_equal. rewrite len_app, !len_cons, len_nil. lia.
+  Qed.
+
+  Lemma fields_in A : forall R, Forall (fun c => inm c = true) A -> fields_ref m (A ++ R) [] = fields_ref m R [].
+  Proof.
+    induction A as [|a A IH]; intros R HA; [reflexivity|]. inversion HA; subst. cbn [app fields_ref]. fold (inm a).
+    replace (inm a) with true by auto. cbn [len length Z.of_nat Z.eqb app]. now apply IH.
+  Qed.
+  Lemma fields_out B : forall R cur, Forall (fun c => negb (inm c) = true) B -> fields_ref m (B ++ R) cur = fields_ref m R (rev B ++ cur).
+  Proof.
+    induction B as [|b B IH]; intros R cur HB; [reflexivity|]. inversion HB as [|b' B' Hb HB']; subst. cbn [app fields_ref]. fold (inm b).
+    apply negb_true_iff in Hb. rewrite Hb. rewrite IH by assumption. cbn [rev]. now rewrite <- app_assoc.
+  Qed.
+
+  Lemma spaltmenge_loop_inv fuel : forall suf pre endl, (length suf < fuel)%nat ->
+    spaltmenge_loop fuel (pre ++ suf) m (len pre + 1) endl = Ok (endl ++ fields_ref m suf []).
+  Proof.
+    induction fuel as [|f IH]; intros suf pre endl Hf; [lia|]. cbn [spaltmenge_loop].
+    destruct suf as [|c0 suf0].
+    { rewrite app_nil_r. destruct (it_end pre) as (-> & _ & _). cbn [negb fields_ref len length Z.of_nat Z.eqb]. now rewrite app_nil_r. }
+    destruct (it_at pre c0 suf0) as (-> & _ & _). cbn [negb].
+    destruct (span inm (c0 :: suf0)) as (A & R & Hdec & HA & HR). rewrite Hdec.
+    assert (HlA : (length A <= length (c0 :: suf0))%nat) by (rewrite Hdec, app_length; lia).
+    rewrite skip_in_inv by (try assumption; rewrite !app_length; lia). cbn [bind].
+    rewrite fields_in by assumption.
+    destruct HR as [->|(c & R' & -> & Hc)].
+    - (* only letters of the set are left *)
+      rewrite app_nil_r. replace (len pre + len A + 1) with (len (pre ++ A) + 1) by (rewrite len_app; lia).
+      destruct (it_end (pre ++ A)) as (-> & _ & _). cbn [fields_ref len length Z.of_nat Z.eqb]. now rewrite app_nil_r.
+    - replace (pre ++ A ++ c :: R') with ((pre ++ A) ++ c :: R') by (now rewrite <- app_assoc).
+      replace (len pre + len A + 1) with (len (pre ++ A) + 1) by (rewrite len_app; lia).
+      destruct (it_at (pre ++ A) c R') as (-> & _ & _).
+      destruct (span (fun x => negb (inm x)) (c :: R')) as (B & R2 & Hdec2 & HB & HR2).
+      assert (HBne : B <> []).
+      { intros ->. cbn [app] in Hdec2. destruct HR2 as [->|(d & R3 & -> & Hd)]; [discriminate|]. injection Hdec2 as -> _.
+        apply negb_false_iff in Hd. congruence. }
+      rewrite Hdec2.
+      assert (HlB : (length B <= length (c0 :: suf0))%nat).
+      { rewrite Hdec. rewrite app_length. rewrite Hdec2, app_length. lia. }
+      rewrite skip_out_inv by (try assumption; rewrite !app_length; lia). cbn [bind].
+      assert (HlB1 : 1 <= len B) by (destruct B; [congruence|rewrite len_cons; pose proof (len_nonneg B); lia]).
+      pose proof (len_nonneg (pre ++ A)) as HlpA. pose proof (len_nonneg R2) as HlR2.
+      rewrite slice_in by (rewrite ?len_app; pose proof (len_nonneg pre); pose proof (len_nonneg A); lia). cbn [bind].
+      replace (len (pre ++ A) + len B + 1 - 1 - (len (pre ++ A) + 1) + 1) with (len B) by lia.
+      replace (len (pre ++ A) + 1 - 1) with (len (pre ++ A)) by lia.
+      rewrite !to_nat_len, skipn_app, skipn_all, Nat.sub_diag. cbn [skipn app].
+      rewrite firstn_app, firstn_all, Nat.sub_diag. cbn [firstn]. rewrite app_nil_r.
+      unfold Hinzufuegen_Liste, efficient_list_append.
+      rewrite fields_out by assumption. rewrite app_nil_r.
+      assert (Hrevne : len (rev B) =? 0 = false) by (apply Z.eqb_neq; rewrite len_rev; lia).
+      destruct HR2 as [->|(d & R3 & -> & Hd)].
+      + rewrite !app_nil_r. replace (len (pre ++ A) + len B + 1) with (len ((pre ++ A) ++ B) + 1) by (rewrite (len_app (pre ++ A) B); lia).
+        destruct (it_end ((pre ++ A) ++ B)) as (_ & _ & ->). unfold text in *.
+        replace (spaltmenge_loop f ((pre ++ A) ++ B) m (len ((pre ++ A) ++ B) + 1) (endl ++ [B]))
+          with (spaltmenge_loop f (((pre ++ A) ++ B) ++ []) m (len ((pre ++ A) ++ B) + 1) (endl ++ [B])) by (now rewrite app_nil_r).
+        rewrite (IH [] ((pre ++ A) ++ B) (endl ++ [B])) by (cbn [length] in *; lia).
+        cbn [fields_ref]. rewrite Hrevne. cbn [len length Z.of_nat Z.eqb]. rewrite rev_involutive, app_nil_r. reflexivity.
+      + apply negb_false_iff in Hd.
+        replace ((pre ++ A) ++ B ++ d :: R3) with (((pre ++ A) ++ B) ++ d :: R3) by (now rewrite <- app_assoc).
+        replace (len (pre ++ A) + len B + 1) with (len ((pre ++ A) ++ B) + 1) by (rewrite (len_app (pre ++ A) B); lia).
+        destruct (it_at ((pre ++ A) ++ B) d R3) as (_ & _ & ->).
+        replace (((pre ++ A) ++ B) ++ d :: R3) with ((((pre ++ A) ++ B) ++ [d]) ++ R3) by (now rewrite <- app_assoc).
+        replace (len ((pre ++ A) ++ B) + 1 + 1) with (len (((pre ++ A) ++ B) ++ [d]) + 1) by (rewrite (len_app _ [d]), len_cons, len_nil; lia).
+        rewrite IH.
+        * cbn [fields_ref]. fold (inm d). rewrite Hd, Hrevne. rewrite rev_involutive, <- app_assoc. reflexivity.
+        * assert (length (c0 :: suf0) = (length A + (length B + S (length R3)))%nat) by (rewrite Hdec, app_length, Hdec2, app_length; reflexivity). lia.
+  Qed.
+
+  Theorem spaltmenge_spec t : Spalten_Spaltmenge_Text_Ref t m = Ok (fields_ref m t []).
+  Proof.
+    unfold Spalten_Spaltmenge_Text_Ref. destruct (len t =? 0) eqn:E0.
+    - apply Z.eqb_eq in E0. apply len_zero_nil in E0. subst. reflexivity.
+    - destruct (len m =? 0) eqn:Em.
+      + apply Z.eqb_eq in Em. apply len_zero_nil in Em. f_equal.
+        assert (Hall : Forall (fun c => negb (inm c) = true) t) by (apply Forall_forall; intros c _; unfold inm; rewrite Em; reflexivity).
+        pose proof (fields_out t [] [] Hall) as H. rewrite !app_nil_r in H. rewrite H. cbn [fields_ref].
+        replace (len (rev t) =? 0) with false by (symmetry; rewrite len_rev; exact E0). now rewrite rev_involutive.
+      + pose proof (spaltmenge_loop_inv (length t + 2) t [] [] ltac:(lia)) as H. exact H.
+  Qed.
+End Spaltmenge.
+
+Theorem spaltmenge_text_spec t mt : inm mt 0 = false -> Spalten_SpaltmengeText_Text t mt = Ok (fields_ref mt t []).
+Proof.
+  intros H. unfold Spalten_SpaltmengeText_Text, Buchstaben_Text_BuchstabenListe. rewrite buchstaben_liste_spec. cbn [bind].
+  now apply spaltmenge_spec.
+Qed.
+(* Leerzeichen: ' ', '\n', '\t', '\r', 13, 14 *)
+Theorem text_worte_spec t : Text_Worte t = Ok (fields_ref leerzeichen t []).
+Proof. apply spaltmenge_spec. reflexivity. Qed.
